@@ -75,7 +75,7 @@ def execute(check, case, seed=None, replay=None):
     tape = kernel.Tape(random.Random(seed), replay)
     sim = kernel.Sim(tape,
                      p_switch=shape.get('p_switch', 0.2),
-                     line_gap_max=shape.get('line_gaps', 0),
+                     line_gap_max=shape.get('line_gaps', 0), trace_opcodes=shape.get('opcodes', False),
                      trace_files=tuple(env.repo_file(f) for f in check.TRACE_FILES),
                      max_steps=check.MAX_STEPS, max_virtual=check.MAX_VIRTUAL, spin_reads=check.SPIN_READS)
     ctx = {}
